@@ -18,7 +18,7 @@ VERIF = os.path.dirname(os.path.dirname(os.path.abspath(__file__)))
 class Contract:
     def __init__(self, id, target, props, params=None, requires=(), ensures=(), raises=None, loops=None,
                  returns=None, modular=(), unroll=0, max_paths=3000, note='', setup=None, ghost=None,
-                 as_callee=False, allow_raise=(), known=None, max_recursion=1, decorators=(), regex_env=None):
+                 as_callee=False, allow_raise=(), known=None, max_recursion=1, decorators=(), regex_env=None, ghost_after=None):
         self.id = id
         self.target = target
         self.props = list(props)
@@ -39,6 +39,7 @@ class Contract:
         self.max_recursion = max_recursion
         self.decorators = list(decorators)
         self.regex_env = regex_env or {}
+        self.ghost_after = ghost_after or {}   # statement-text pattern -> ghost code run after matching statements
 
 
 class SpecModule:
@@ -77,11 +78,23 @@ class VerifEnv:
                 else:
                     self.loop_specs[(c.target, ordinal)] = spec
         self.parse_cache = {}
+        self.ghost_hooks = {}
+        for c in contracts:
+            if c.ghost_after:
+                self.ghost_hooks.setdefault(c.target, {}).update(c.ghost_after)
         self.spec_module = SpecModule(self.repo)
         self.unroll = 0
         self.max_recursion = 1
         self.transparent_decorators = set()
         self.current = None
+
+    def stmt_text(self, fi, st):
+        key = ('seg', id(st))
+        t = self.parse_cache.get(key)
+        if t is None:
+            t = ast.get_source_segment(fi.module.text, st) or ''
+            self.parse_cache[key] = t
+        return t
 
     # ---- hooks used by the interpreter
     def spec_builtin(self, name):
